@@ -941,7 +941,7 @@ bool XMLReader::getSpaces(XMLBuffer& toFill)
                 //  true  : 'curCh' must be xA  or xD
                 //  false : 'curCh' must be x20 or x9
                 //
-                if ( ( curCh & (chCR|chLF) & ~(0x9|0x20) ) == 0 )
+                if (curCh == chSpace || curCh == chHTab)
                 {
                     fCurCol++;
                 } else
@@ -1085,7 +1085,7 @@ bool XMLReader::skipSpaces(bool& skippedSomething, bool inDecl)
                 //  true  : 'curCh' must be xA  or xD
                 //  false : 'curCh' must be x20 or x9
                 //
-                if ( ( curCh & (chCR|chLF) & ~(0x9|0x20) ) == 0 )
+                if (curCh == chSpace || curCh == chHTab)
                 {
                     fCurCol++;
                 } else
@@ -1169,7 +1169,7 @@ bool XMLReader::skippedSpace()
         //  true  : 'curCh' must be xA  or xD
         //  false : 'curCh' must be x20 or x9
         //
-        if ( ( curCh & (chCR|chLF) & ~(0x9|0x20) ) == 0 )
+        if (curCh == chSpace || curCh == chHTab)
         {
             fCurCol++;
         } else
